@@ -24,8 +24,12 @@ Definition bind {A B} (r: res A) (k: A -> list tt -> res B) : res B :=
 Definition expect {A} (r: res (option A)) : res A :=
   match r with Ok (Some a) rest => Ok a rest | Ok None _ => Panic | Panic => Panic | Unsup => Unsup | Fuel => Fuel end.
 
+(* identifiers that start something else than a path (and the empty string, which is not an identifier) *)
 Definition is_kw (s: string) : bool :=
-  (s =? "as") || (s =? "impl") || (s =? "dyn") || (s =? "fn") || (s =? "Fn") || (s =? "FnMut") || (s =? "FnOnce").
+  (s =? "") || (s =? "as") || (s =? "impl") || (s =? "dyn") || (s =? "fn") || (s =? "Fn") || (s =? "FnMut") || (s =? "FnOnce").
+
+(* the path string is empty: no leading identifier and no `::segment` read *)
+Definition path_empty (p: list string) : bool := match p with [s] => s =? "" | [] => true | _ => false end.
 
 (* read `::ident` repeatedly *)
 Fixpoint path_loop (k: nat) (acc: list string) (src: list tt) : res (list string) :=
@@ -86,13 +90,14 @@ Definition after_ref (nt: list tt -> res (option ty)) (rt: option (option string
       | _ =>
         if (match src1 with TId s :: _ => is_kw s | _ => false end) then Unsup      (* impl / dyn / fn-like / as: outside the fragment *)
         else
-        let '(first, src2) := match src1 with TId s :: rest => ([s], rest) | _ => ([], src1) end in
+        (* `let mut ty = next_ident(..).unwrap_or_default()`: a path that starts with `::` keeps an EMPTY first segment ("::std::vec::Vec");
+           `ty.is_empty()` holds exactly when nothing at all was read *)
+        let '(first, src2) := match src1 with TId s :: rest => ([s], rest) | _ => ([""], src1) end in
         bind (path_loop (S (List.length src2)) first src2) (fun path src3 =>
           match src3 with
           | TP PLt :: src4 =>
-              match path with
-              | [] => Unsup                                (* <T as Trait>::Assoc *)
-              | _ =>
+              if path_empty path then Unsup                (* <T as Trait>::Assoc *)
+              else
                 bind (expect (nt src4)) (fun g0 src5 =>
                 bind (gen_loop nt (S (List.length src5)) [g0] src5)
                      (fun gens src6 =>
@@ -102,10 +107,9 @@ Definition after_ref (nt: list tt -> res (option ty)) (rt: option (option string
                         | TP PEq :: _ => Unsup
                         | _ => Panic
                         end))
-              end
           | TId s :: _ => if s =? "as" then Unsup
-                          else match path with [] => Ok (Some (Ty CUnNamed None rt None)) src3 | _ => Ok (Some (Ty (CNamed path) None rt None)) src3 end
-          | _ => match path with [] => Ok (Some (Ty CUnNamed None rt None)) src3 | _ => Ok (Some (Ty (CNamed path) None rt None)) src3 end
+                          else if path_empty path then Ok (Some (Ty CUnNamed None rt None)) src3 else Ok (Some (Ty (CNamed path) None rt None)) src3
+          | _ => if path_empty path then Ok (Some (Ty CUnNamed None rt None)) src3 else Ok (Some (Ty (CNamed path) None rt None)) src3
           end)
       end.
 
